@@ -43,7 +43,7 @@ VerdictOf ==
   [ C10 |-> {"context_dead_during_call", "context_live_at_cleanup", "context_live_after_call", "cleanup_not_lifo", "cleanup_not_run",
              "cleanup_run_twice_or_unknown", "cleanup_before_return", "invocation_overlap", "cleanup_after_end", "context_shared_between_invocations"},
     C08 |-> {"invariant_not_first", "invariant_missing_after_action", "invariant_after_skipped_action", "continued_after_falsification",
-             "actions_overlap", "no_valid_action_not_reported", "skipped_action_counted", "invariant_not_run_once"} ]
+             "actions_overlap", "no_valid_action_not_reported", "skipped_action_counted", "invariant_not_run_once", "hangs"} ]
 Verdicts == IF Property = "ALL" THEN UNION { VerdictOf[p] : p \in DOMAIN VerdictOf } ELSE VerdictOf[Property]
 
 ScenBegin == /\ Is("scen.begin") /\ Adv /\ scen' = Ev /\ fr' = <<>> /\ kind' = "none" /\ sm' = NoSM /\ viol' = {} /\ seen' = {}
@@ -209,12 +209,15 @@ SmEnd ==
   /\ sm' = [sm EXCEPT !.active = FALSE]
   /\ UNCHANGED <<scen, fr, kind, seen>>
 
-Handled == {"example.begin", "example.end", "scen.begin", "scen.end", "h.phase", "h.once.begin", "inv.begin", "cinv.begin", "inv.end", "cinv.end", "h.custom.end", "h.once.end",
+Handled == {"hang", "example.begin", "example.end", "scen.begin", "scen.end", "h.phase", "h.once.begin", "inv.begin", "cinv.begin", "inv.end", "cinv.end", "h.custom.end", "h.once.end",
             "cleanup.reg", "cleanup.run", "cleanup.end", "ctx", "sm.begin", "sm.inv.begin", "sm.inv.end", "sm.action.begin", "sm.action.end",
             "draw", "call", "h.repeat.more", "sm.end"}
+\* the watchdog saw an invocation still running after 90 s: the library hung
+Hang == /\ Is("hang") /\ Adv /\ viol' = viol \cup {"hangs"} /\ UNCHANGED <<scen, fr, kind, sm, seen>>
+
 Other == /\ l <= Len(Trace) /\ Trace[l].ev \notin Handled /\ Adv /\ UNCHANGED <<scen, fr, kind, sm, viol, seen>>
 
-Next == ExampleBegin \/ ExampleEnd \/ ScenBegin \/ ScenEnd \/ Phase \/ OnceBegin \/ InvBegin \/ CInvBegin \/ InvEnd \/ CInvEnd \/ CustomEnd \/ OnceEnd \/ Reg \/ Run \/ RunEnd
+Next == Hang \/ ExampleBegin \/ ExampleEnd \/ ScenBegin \/ ScenEnd \/ Phase \/ OnceBegin \/ InvBegin \/ CInvBegin \/ InvEnd \/ CInvEnd \/ CustomEnd \/ OnceEnd \/ Reg \/ Run \/ RunEnd
         \/ Ctx \/ SmBegin \/ SmInvBegin \/ SmInvEnd \/ SmActBegin \/ SmActEnd \/ SmDraw \/ SmCall \/ RepeatMore \/ SmEnd \/ Other
 
 Spec == Init /\ [][Next]_vars
